@@ -374,6 +374,27 @@ FixPeriodSeries(q, db, rows) ==
                     f \in fps} :
             s.pts # {}}
 
+(* shared/planner_clickhouse_getter.go ScanMatrix: the rows of the SQL result travel through the post-processors *)
+(* in slices of GetterBatch rows (the last one shorter, closed by an end-of-stream entry of value 0).  Every      *)
+(* post-processor works slice by slice (internal_planner GenericPlanner.WrapProcess: OnEntry per row,           *)
+(* OnAfterEntriesSlice per slice) in its own goroutine; FixPeriodPlanner carries the series it is filling        *)
+(* across slices.  A slice handed downstream belongs to the receiver: ZeroEater / FixPeriod as functions on      *)
+(* rows (FixPeriodSeries) are the concatenation of the slices, wherever the cuts fall - also inside a series.    *)
+(* Batches(n): the number of slices a result of n rows arrives in.                                              *)
+GetterBatch == 100
+Batches(n) == (n \div GetterBatch) + 1
+(* the cuts: positions (1-based, in the order fingerprint, timestamp of the SQL) after which a new slice starts *)
+BatchCuts(n) == {i * GetterBatch : i \in 1..(n \div GetterBatch)} \ {n}
+
+PlanMetricRows(q, db) ==          \* the rows of the SQL of the request (before the Go post-processors)
+    LET pp == ParsedPipe(q.p, 1)
+    IN  IF ~Shortcut(q, pp) /\ (SqlRejected(pp) \/ (HasUnwrap(pp) /\ LabelsJoinIdx(pp) = 0)) THEN {}
+        ELSE LET r0 == IF Shortcut(q, pp) THEN ShortcutRows(q, db, pp) ELSE LraRows(q, db, pp)
+                 r1 == Having(q, q.mq.cmpl, r0)
+                 r2 == Having(q, q.mq.cmpa, AggPlanRows(q, db, r1))
+                 r3 == Having(q, q.mq.cmpt, TopPlanRows(q, r2))
+             IN  StepFixRows(q, r3)
+
 PlanMetric(q, db) ==
     LET pp == ParsedPipe(q.p, 1)
     IN  IF ~Shortcut(q, pp) /\ (SqlRejected(pp) \/ (HasUnwrap(pp) /\ LabelsJoinIdx(pp) = 0))
